@@ -25,6 +25,7 @@ RULE = ("for every N in 2..12 and every batchsize / num_batches giving 2..Bmax b
         "{raw, Runner->Dataset, reap_combos_to_ds, DataFrame} and result kind in {float,int,bool,str,array,tuple,"
         "nested list,Dataset} rotate over the configurations (all three shuffle settings crossed in thorough); "
         "a Harvester form whose partial reaps race with the last grower; partial reaps through a handle older than the sow; for a third of the configurations the location was used before by a crop of another result kind; for a quarter of the crops the batch files carry later timestamps than the results; for a third of the subsets an unfinished batch has the real leftover of a failed result write lying in the crop; crops without a saved function reaped through handles that never loaded the crop (autoload=False); partial reaps with warnings turned into errors; functions returning a plain dict of outputs; earlier and later crops whose settings files share one time stamp; a (configuration, subset) pair is one execution; non-trivial always (>= 2 batches, >= 1 missing)")
+RULE += '; several outputs of which one is an array of exactly one element (multi:s,a1 / multi:a1x1,s)'
 ASSUMPTIONS = [
     "missing = all leaves NaN/None with the real result's shape; in DataFrame form a missing setting is a row whose outputs are all null",
 ]
